@@ -39,6 +39,15 @@ theorem C18_ids (sched : List Rpc.Action) (s : Rpc.State) (h : Rpc.run {} sched 
 theorem C18_no_block (sched : List Rpc.Action) (hn : (sched.filterMap Proofs.Rpc.recvId).Nodup) :
     (Rpc.run {} sched).isSome = true := Proofs.Rpc.never_blocked sched hn
 
+/-- … and, since the repair of the read loop (a response nobody can take is dropped instead of blocking the loop),
+    under ANY behaviour of the peer: duplicated responses, responses for finished or unknown calls, in any order. -/
+theorem C18_no_block_any (sched : List Rpc.Action) : (Rpc.run {} sched).isSome = true :=
+  Proofs.Rpc.never_blocked_any sched {}
+
+/-- A peer that answers id 1 three times does not keep the second call from its response. -/
+example : (Rpc.run {} [.call 1, .call 2, .recv ⟨1, 5⟩, .recv ⟨1, 5⟩, .recv ⟨1, 5⟩, .recv ⟨2, 6⟩, .finishRecv 1, .finishRecv 2]).map (·.completed)
+    = some [(1, 1, .response ⟨1, 5⟩), (2, 2, .response ⟨2, 6⟩)] := by decide
+
 /-- Non-vacuity: two frames, one with a multi-byte body; a malformed header; an out-of-order, cancel-racing schedule. -/
 example : readAll (encode [123, 125] ++ encode [195, 169]) = ([[123, 125], [195, 169]], none) := by decide
 example : (readAll ([67, 111, 110, 116, 101, 110, 116, 45, 76, 101, 110, 103, 116, 104, 58, 32, 48, 13, 10, 13, 10])).2
